@@ -165,8 +165,18 @@ def run(ctx, chk):
             m = addr_mask(p['index'])
             key = 'inj:%s:%s' % (name, '/'.join(c.split('::')[-1] for c in p['cart']) or '-')
             if m is None:
-                chk.fail('C10.3', key, '%s: index %s is not of the form base + (addr & mask)' % (name, fmt(p['index'])),
-                         mfile, None)
+                # any other spelling: the index must be affine in the address with coefficient 1 on the region
+                from ..affine import aff as _aff
+                envr = p['env'].copy()
+                envr.assume(bm.ADDR, AV(16, lo, hi))
+                co, c0, w_ = _aff(p['index'], envr)
+                aat = [(a_, k_) for a_, k_ in co.items() if mentions(a_, bm.ADDR)]
+                plain = [a_ for a_, k_ in aat if a_ == bm.ADDR or (a_[0] == 'o' and a_[2] in ('zext', 'trunc') and a_[3] == bm.ADDR)]
+                if len(aat) == 1 and aat[0][1] == 1 and plain:
+                    chk.ok('C10.3', key)
+                else:
+                    chk.fail('C10.3', key, '%s: index %s is not an injective function of the address on 0x%04x-0x%04x '
+                             '(not base + addr, not base + (addr & mask))' % (name, fmt(p['index'])[:120], lo, hi), mfile, None)
             elif (lo & ~m) != (hi & ~m):
                 chk.fail('C10.3', key, '%s 0x%04x-0x%04x: addr & %#x is not injective on the region (addresses alias)'
                          % (name, lo, hi, m), mfile, None)
@@ -185,21 +195,22 @@ def run(ctx, chk):
             if not bank_atoms:
                 continue
             key = 'stride:%s:%s' % (name, '/'.join(c.split('::')[-1] for c in p['cart']) or '-')
-            span = 0
-            okk = True
-            for a, k in addr_atoms:
-                if k != 1:
-                    okk = False
-                span += env.av(a).hi
+            from ..affine import _range, _signed
+            okk = all(k == 1 for a, k in addr_atoms)
+            envr = env.copy()
+            envr.assume(bm.ADDR, AV(16, p['segs'][0][0], p['segs'][-1][1]))
+            sco, sc0 = _signed(dict(addr_atoms), c0, w)
+            olo, ohi = _range(sco, sc0, envr)
+            span = ohi - olo          # width of the window one bank occupies in the buffer
             if not okk or len(bank_atoms) != 1:
                 chk.fail('C10.3', key, '%s: banked index %s is not of the form stride * bank + f(addr)'
                          % (name, fmt(p['index'])[:120]), mfile, None)
                 continue
             stride = bank_atoms[0][1]
             if stride > span:
-                chk.ok('C10.3', key, sample={'region': name, 'stride': hex(stride), 'largest in-bank offset': hex(span)})
+                chk.ok('C10.3', key, sample={'region': name, 'stride': hex(stride), 'in-bank offsets': [hex(olo), hex(ohi)]})
             else:
-                chk.fail('C10.3', key, '%s: consecutive banks are %#x cells apart but offsets inside a bank reach %#x: a byte '
+                chk.fail('C10.3', key, '%s: consecutive banks are %#x cells apart but offsets inside a bank span %#x cells: a byte '
                          'written in one bank is visible at another address of the neighbouring bank (index %s)'
                          % (name, stride, span, fmt(p['index'])[:120]), mfile, None)
     # disjoint index sets of different read paths on the same writable buffer
